@@ -162,7 +162,9 @@ func runFileFaults(r *rng, tier string, dir0 string, mk func(int) string) {
 				switch {
 				case res == "crash" || res == "hang" || res == "spawn-failed":
 					violation("record-"+res, ff.input(), "Load+Run after a file-level fault ("+ff.name+" on "+ff.file+"): "+detail)
-				case res == "ok" && executed == 0 && kindOfFile != "index":
+				case res == "ok" && executed == 0 && detail == "" && kindOfFile != "index" && !ff.prefer:
+					// (an index-only load is never what a build runs on: cmd/dawn build and watch load with index=false, and
+					// indexTarget.upToDate is constantly true by design, so with PreferIndex only the crash judge applies)
 					// nothing ran: legitimate only if the file still says what it said
 					var a, b any
 					same := ff.kind == "content" && json.Unmarshal(snap[ff.file], &a) == nil &&
@@ -172,8 +174,8 @@ func runFileFaults(r *rng, tier string, dir0 string, mk func(int) string) {
 					} else {
 						violation("record-silently-up-to-date", ff.input(), "the "+kindOfFile+" record was changed ("+ff.name+") and nothing was re-executed or reported")
 					}
-				case res == "ok" && executed > 0:
-					stats["recfile.reexecuted"]++
+				case res == "ok":
+					stats["recfile.reexecuted"]++ // some target was evaluated again (`detail` lists them; a body ran iff executed > 0)
 				}
 				mu.Unlock()
 			}
